@@ -411,6 +411,38 @@ fn run_inner(case: &SchedCase, obs: &mut dyn Observer, dir: &str, tail: Option<T
                 }
                 r.note_closed();
             }
+            (op, Expect::Reject { .. }) if op.is_write() => {
+                // a call the specification refuses: executed like any other call; only the accepted prefix of a batch
+                // takes effect (whether it leaves a trace is C06's subject, here it must just not disturb the rest)
+                outcome = r.st.write(op);
+                let mut m2 = r.m.clone();
+                let (recs, _) = Gen::apply_to_model(&mut m2, op);
+                if outcome.is_err() {
+                    // follow the store for how much of a batch took effect (an injected chunk-creation failure may
+                    // have ended it before the refused entry was reached)
+                    let mut applied = recs.len();
+                    if let Op::Append(es) = op {
+                        let last_now = r.st.state().last;
+                        applied = es.iter().position(|(id, _)| Some(*id) == last_now).map(|p| p + 1).unwrap_or(0).min(recs.len());
+                    }
+                    let cut = applied < recs.len();
+                    for rec in recs.into_iter().take(applied) {
+                        r.m.apply(&rec);
+                        r.recs.push(rec);
+                        r.models.push(r.m.clone());
+                    }
+                    if cut {
+                        trace::note(Ek::OpEnd { op: i as u32, ok: false });
+                        r.last_op_ok = false;
+                        stop_reason = "history ended: a fault cut a partly refused batch short".into();
+                        r.steps.push(StepRec { ev_begin, ev_end: trace::ev_count(), writes_before: wb, writes_after: r.recs.len(), outcome });
+                        completed = i + 1;
+                        break;
+                    }
+                } else if outcome.is_ok() {
+                    return Err(RunErr::Viol(sviol("C06", "rejected_call_returned_ok", format!("{} -> Ok", op.brief()), case, i)));
+                }
+            }
             (Op::Misc(k), _) => {
                 // dump / snapshot iteration with the worker wherever the schedule left it
                 let o = r.st.misc(*k);
